@@ -72,8 +72,9 @@ class C05(Property):
     ]
     technique = "Lean 4: executable denotation `den`, confluence of every consistent log family by induction over the topological order from per-node permutation invariance; operational=denotational theorem for the grouping steps; differential runs of the real engine under controlled interleavings"
     level_text = ("grade B (partial): every consistent log family of a well-formed DAG equals den on every port up to order (hence any two "
-                  "schedules agree), per-node permutation invariance for all generated step classes, the Transformer/Conditional loop proved "
-                  "equal to its denotation for every arrival order; the link 'real run = consistent family' is sampled (K), not proved")
+                  "schedules agree), per-node permutation invariance for all generated step classes, the Transformer/Conditional/Schedule loop "
+                  "proved equal to its denotation for every arrival order and composed with the network (operationally consistent families "
+                  "equal den); for scatter/gather/combinators the link 'real run = consistent family' is sampled (K), not proved")
     level_note = "Lean kernel, axioms within {propext, Classical.choice, Quot.sound}; den compared with the real engine on every run"
     assumptions = [
         "well-formed workflows as generated (checked by wfStruct / wfDyn in the driver on every case): DAG, one producer per port, equal tag "
